@@ -323,3 +323,31 @@ pub fn m2(thorough: bool) -> Vec<MsgSpec> {
     }
     v
 }
+
+/// The "effective" atoms of M2b.
+pub fn effective_atoms() -> Vec<AtomSpec> {
+    [a("a.z.", 60, 2), empty("a.z.", ru::T_A, ru::CLASS_ANY, 0), txt("b.z.", 60, "t")].into_iter().map(AtomSpec::plain).collect()
+}
+
+/// M2b: EVERY update atom of the full alphabet next to an atom that normally changes the zone
+/// (add A at a.z., delete RRset a.z. A, add TXT at b.z.), in both orders; thorough also the atom in
+/// the middle of two effective ones. Every `continue` / early-exit site of the server's update
+/// loop is thereby exercised with something before and something after it.
+pub fn m2b(thorough: bool) -> Vec<MsgSpec> {
+    let eff = effective_atoms();
+    let mut v = vec![];
+    for x in update_atoms() {
+        for e in &eff {
+            v.push(MsgSpec { prereqs: vec![], updates: vec![x.clone(), e.clone()] });
+            v.push(MsgSpec { prereqs: vec![], updates: vec![e.clone(), x.clone()] });
+        }
+        if thorough {
+            for e1 in &eff {
+                for e2 in &eff {
+                    v.push(MsgSpec { prereqs: vec![], updates: vec![e1.clone(), x.clone(), e2.clone()] });
+                }
+            }
+        }
+    }
+    v
+}
